@@ -7,12 +7,15 @@ import Gedcom.Lemmas.WarningsOrder
 namespace Gedcom.C20
 open Gedcom Gedcom.Warn
 
-/-- UnparsableDate: reported for exactly the DATE values that do not parse, in the context of the
-    record that holds them. -/
+/-- UnparsableDate: reported for exactly the DATE values that are not valid (either end is the
+    zero date: unparsable text, date phrases, half-parsed ranges), in the context of the record
+    that holds them; `l` is the position of the DATE node.  No guard: holds for every document. -/
 theorem unparsable_sound_complete (d : Doc) (now : Date) (inFam : Bool) (p l : Nat) :
     Warning.unparsableDate inFam p l ∈ warnings d now ↔
-      (inFam = false ∧ ∃ i, Rec.indi i ∈ d ∧ i.ptr = p ∧ ∃ e ∈ i.events, DateV.bad l ∈ e.dates) ∨
-      (inFam = true ∧ ∃ f, Rec.fam f ∈ d ∧ f.ptr = p ∧ ∃ e ∈ f.events, DateV.bad l ∈ e.dates) := by
+      (inFam = false ∧ ∃ i, Rec.indi i ∈ d ∧ i.ptr = p ∧
+        ∃ e ∈ i.events, ∃ x ∈ e.dates, x.valid = false ∧ x.label = l) ∨
+      (inFam = true ∧ ∃ f, Rec.fam f ∈ d ∧ f.ptr = p ∧
+        ∃ e ∈ f.events, ∃ x ∈ e.dates, x.valid = false ∧ x.label = l) := by
   rw [mem_warnings_cases]
   constructor
   · rintro (⟨i, hi, h | h | h | h⟩ | ⟨f, hf, h | h | h | h | h⟩)
@@ -80,6 +83,12 @@ theorem birthDay_eq_some {d : Doc} {p : Nat} {b : Int} :
   unfold birthDay
   split <;> simp_all
 
+theorem birthOf_bind_noGen {d : Doc} (hx : ExactDates d) (o : Option Nat) :
+    NoGenO (birthOf (o.bind (indiOf d))) := by
+  cases o with
+  | none => intro v h; simp [birthOf] at h
+  | some p => exact birthOf_noGen hx
+
 /-- ChildBornBeforeParent(parent, child) is reported in the context of family `fp` exactly when
     `child` is a CHIL of that family, `parent` its HUSB or WIFE, both have a valid birth date and
     the child's birth day is strictly before the parent's. -/
@@ -98,7 +107,7 @@ theorem child_born_before_parent_sound_complete (d : Doc) (now : Date) (hx : Exa
     · simp at h
     · rename_i hcv
       simp only [Bool.not_eq_true] at hcv
-      obtain ⟨tc, htc⟩ := validO_iff.mp (by simpa using hcv)
+      obtain ⟨tc, htc⟩ := (validO_iff (birthOf_noGen hx)).mp (by simpa using hcv)
       have hfc := (birthOf_full hx htc).1
       simp only [List.mem_append] at h
       rcases h with h | h
@@ -107,7 +116,7 @@ theorem child_born_before_parent_sound_complete (d : Doc) (now : Date) (hx : Exa
           simp at h
           obtain ⟨rfl, rfl, rfl⟩ := h
           simp only [Bool.and_eq_true] at hc
-          obtain ⟨tp, htp⟩ := validO_iff.mp hc.1
+          obtain ⟨tp, htp⟩ := (validO_iff (birthOf_bind_noGen hx _)).mp hc.1
           cases hh : f.husb with
           | none => simp [hh, birthOf] at htp
           | some hp =>
@@ -122,7 +131,7 @@ theorem child_born_before_parent_sound_complete (d : Doc) (now : Date) (hx : Exa
           simp at h
           obtain ⟨rfl, rfl, rfl⟩ := h
           simp only [Bool.and_eq_true] at hc
-          obtain ⟨tp, htp⟩ := validO_iff.mp hc.1
+          obtain ⟨tp, htp⟩ := (validO_iff (birthOf_bind_noGen hx _)).mp hc.1
           cases hh : f.wife with
           | none => simp [hh, birthOf] at htp
           | some wp =>
@@ -140,19 +149,19 @@ theorem child_born_before_parent_sound_complete (d : Doc) (now : Date) (hx : Exa
     have hfp := (birthOf_full hx htp).1
     simp only [childrenBornBeforeParents, List.mem_flatMap]
     refine ⟨c, hc, ?_⟩
-    have hv : validO (birthOf (indiOf d c)) = true := validO_iff.mpr ⟨tc, htc⟩
+    have hv : validO (birthOf (indiOf d c)) = true := (validO_iff (birthOf_noGen hx)).mpr ⟨tc, htc⟩
     simp only [hv, Bool.not_true, Bool.false_eq_true, if_false, List.mem_append]
     rcases hpar with hh | hh
     · left
       have : validO (birthOf (f.husb.bind (indiOf d))) = true := by
-        rw [hh]; exact validO_iff.mpr ⟨tp, by simpa using htp⟩
+        rw [hh]; exact (validO_iff (birthOf_bind_noGen hx _)).mpr ⟨tp, by simpa using htp⟩
       have h2 : yearsLtV (birthOf (indiOf d c)) (birthOf (f.husb.bind (indiOf d))) = true := by
         rw [hh, Option.bind_some, htc, htp]; exact (yearsLtV_ok hfc hfp).mpr hlt
       rw [hh, Option.bind_some] at this h2
       simp [this, h2, hh]
     · right
       have : validO (birthOf (f.wife.bind (indiOf d))) = true := by
-        rw [hh]; exact validO_iff.mpr ⟨tp, by simpa using htp⟩
+        rw [hh]; exact (validO_iff (birthOf_bind_noGen hx _)).mpr ⟨tp, by simpa using htp⟩
       have h2 : yearsLtV (birthOf (indiOf d c)) (birthOf (f.wife.bind (indiOf d))) = true := by
         rw [hh, Option.bind_some, htc, htp]; exact (yearsLtV_ok hfc hfp).mpr hlt
       rw [hh, Option.bind_some] at this h2
@@ -224,7 +233,7 @@ theorem siblings_once_per_pair (d : Doc) (f : Fam) :
     strictly before day `d1`. -/
 theorem event_order_sound_complete (d : Doc) (now : Date) (hx : ExactDates d)
     (p : Nat) (k2 : EvKind) (d2 : Date) (k1 : EvKind) (d1 : Date) :
-    Warning.incorrectEventOrder p k2 d2 k1 d1 ∈ warnings d now ↔
+    Warning.incorrectEventOrder p k2 (.ok d2) k1 (.ok d1) ∈ warnings d now ↔
       ∃ i, Rec.indi i ∈ d ∧ i.ptr = p ∧ ∃ g1 g2, groupOf k1 = some g1 ∧ groupOf k2 = some g2 ∧
         g1 < g2 ∧ Dated i k1 (.ok d1) ∧ Dated i k2 (.ok d2) ∧ dayOf d2 < dayOf d1 := by
   rw [mem_warnings_cases]
@@ -277,7 +286,7 @@ theorem married_sound_complete (d : Doc) (now : Date) (hx : ExactDates d) (lo hi
              (old = true ∧ ∃ t, DateV.ok t ∈ e.dates ∧ absd (dayOf t) b * 4 > 100 * 1461)) := by
   have spec : ∀ f, Rec.fam f ∈ d → ∀ e, e ∈ f.events → ∀ i, indiOf d sp = some i → _ :=
     fun f hf e he i hi => ageAtEvent_spec (i := i) (e := e) (hx.fullEvs (indiOf_some hi).1)
-      (fun t ht => (hx.fam hf he ht).1)
+      (fun x hx' => hx.fine_fam hf he hx')
       (by
         intro b hb t ht
         obtain ⟨e', he', t', ht', hd'⟩ := hb.mem
@@ -386,7 +395,7 @@ theorem cbbp_sublist (d : Doc) (f : Fam) :
       · split
         · rename_i hc
           simp only [Bool.and_eq_true] at hc
-          obtain ⟨t, ht⟩ := validO_iff.mp hc.1
+          obtain ⟨t, ht⟩ := validO_some hc.1
           cases hh : f.husb with
           | none => simp [hh, birthOf] at ht
           | some h => simp [cbbpPair]
@@ -394,7 +403,7 @@ theorem cbbp_sublist (d : Doc) (f : Fam) :
       · split
         · rename_i hc
           simp only [Bool.and_eq_true] at hc
-          obtain ⟨t, ht⟩ := validO_iff.mp hc.1
+          obtain ⟨t, ht⟩ := validO_some hc.1
           cases hh : f.wife with
           | none => simp [hh, birthOf] at ht
           | some h => simp [cbbpPair]
@@ -482,6 +491,83 @@ theorem order_independent (d d' : Doc) (now : Date) (hn : PtrsNodup d) (h : Reor
   rw [hcongr]
   exact ((hp.flatMap_right _).map norm).trans (recsEquiv_perm d now he)
 
+/-! ### the 365.25-day year against the calendar -/
+
+theorem cum_leap (l : Bool) {m : Nat} (h1 : 1 ≤ m) (h2 : m ≤ 12) :
+    cum l m = cum false m + (if l = true ∧ 3 ≤ m then 1 else 0) := by
+  rcases month_cases h1 h2 with h|h|h|h|h|h|h|h|h|h|h|h <;> subst h <;> cases l <;> simp [cum]
+
+theorem isLeap_false_iff (y : Int) :
+    isLeap y = false ↔ ¬ (y % 4 = 0 ∧ (y % 100 ≠ 0 ∨ y % 400 = 0)) := by
+  rw [← isLeap_iff]; cases isLeap y <;> simp
+
+/-- **year_approximation**: the same calendar day `n ≤ 150` years later is fewer than 3 days away
+    from `n × 365.25` days — in quarter days `|4·Δdays − 1461·n| < 12`, over the closed-form day
+    numbers of Model/Calendar.lean, for every year, month and day.  (−11 quarter days is reached,
+    e.g. 1 Mar 0056 → 1 Mar 0203, across two non-leap century years.)  This is the margin the
+    married-young/old oracle relies on: a marriage 3 or more days away from the 16th / 100th
+    birthday is on the same side of `16 × 365.25` / `100 × 365.25` days as of the birthday. -/
+theorem year_approximation (y n : Int) (m : Nat) (d : Int) (hn0 : 0 ≤ n) (hn : n ≤ 150)
+    (hm1 : 1 ≤ m) (hm2 : m ≤ 12) :
+    -12 < 4 * (dayNumber (y + n) m d - dayNumber y m d) - 1461 * n ∧
+    4 * (dayNumber (y + n) m d - dayNumber y m d) - 1461 * n < 12 := by
+  unfold dayNumber daysBeforeYear
+  rw [cum_leap (isLeap (y + n)) hm1 hm2, cum_leap (isLeap y) hm1 hm2]
+  generalize cum false m = c0
+  by_cases hm3 : 3 ≤ m
+  · cases ha : isLeap y <;> cases hb : isLeap (y + n) <;>
+      simp only [hm3, and_true, if_true, Bool.false_eq_true, if_false] <;>
+      first
+        | (have a := (isLeap_iff y).mp ha; have b := (isLeap_iff (y + n)).mp hb; omega)
+        | (have a := (isLeap_iff y).mp ha; have b := (isLeap_false_iff (y + n)).mp hb; omega)
+        | (have a := (isLeap_false_iff y).mp ha; have b := (isLeap_iff (y + n)).mp hb; omega)
+        | (have a := (isLeap_false_iff y).mp ha; have b := (isLeap_false_iff (y + n)).mp hb; omega)
+  · simp only [hm3, and_false, if_false]
+    omega
+
+/-- a marriage at least 3 days after (before) the `n`-th birthday is more (fewer) than
+    `n × 365.25` days after the birth: the civil reading and the code's constant agree outside a
+    3-day margin -/
+theorem anniversary_margin (y n : Int) (m : Nat) (d x : Int) (hn0 : 0 ≤ n) (hn : n ≤ 150)
+    (hm1 : 1 ≤ m) (hm2 : m ≤ 12) :
+    (dayNumber (y + n) m d + 3 ≤ x → 4 * (x - dayNumber y m d) > 1461 * n) ∧
+    (x + 3 ≤ dayNumber (y + n) m d → 4 * (x - dayNumber y m d) < 1461 * n) := by
+  have := year_approximation y n m d hn0 hn hm1 hm2
+  constructor <;> intro h <;> omega
+
+/-! ### exact days inside the general date model
+
+  The driver sorts every parsed DATE value into `ok` / `bad` / `gen` (`classifyDate`).  The
+  theorems above are about `ok` and `bad`; this shows that treating an exact day as `ok` is the
+  same as running the general (`gen`) reading of its two ends. -/
+
+/-- the parsed ends of an exact day -/
+def exactP (t : Date) : PDate := ⟨t.day, t.month, t.year, .exact, false⟩
+
+theorem exact_is_general (l : Nat) (t : Date) (hd : t.day ≠ 0) (hy1 : 1 ≤ t.year) (hy2 : t.year ≤ 9999) :
+    let g := DateV.gen l (exactP t) (exactP t)
+    g.valid = (DateV.ok t).valid ∧ startFrac (some g) = startFrac (some (.ok t)) ∧
+    endFrac (some g) = endFrac (some (.ok t)) ∧ startI (some g) = startI (some (.ok t)) ∧
+    endI (some g) = endI (some (.ok t)) ∧
+    -- the mean of two equal ends: the same fraction `N/D`, written `(N·D + N·D) / (2·D·D)`
+    yearsFrac (some g) = (
+      (yearsFrac (some (.ok t))).1 * (yearsFrac (some (.ok t))).2 +
+        (yearsFrac (some (.ok t))).1 * (yearsFrac (some (.ok t))).2,
+      2 * ((yearsFrac (some (.ok t))).2 * (yearsFrac (some (.ok t))).2)) ∧
+    subErr (some g) none = subErr (some (.ok t)) none := by
+  have hy0 : ¬ t.year = 0 := by omega
+  have e : (exactP t).toDate = t := rfl
+  have hf : (exactP t).yearsFrac = ((t.year : Int) * t.yearsDen + t.yearsNum, t.yearsDen) := by
+    simp [PDate.yearsFrac, exactP, hy0, hy2, PDate.toDate]
+  refine ⟨?_, ?_, ?_, ?_, ?_, ?_, ?_⟩
+  · simp [DateV.valid, PDate.isZero, exactP, hd]
+  · simp [startFrac, hf]
+  · simp [endFrac, hf]
+  · simp [startI, timeOK, exactP, hy1, hy2, PDate.toDate]
+  · simp [endI, timeOK, exactP, hy1, hy2, PDate.toDate]
+  · simp only [yearsFrac, hf]
+  · simp [subErr, exactP]
+
 /-! Non-vacuity: concrete documents that meet the guards and exercise each side (tests, not the
     property). -/
 
@@ -507,7 +593,7 @@ example : DatesWithin (dayOf ⟨1, 1, 1799⟩) (dayOf today - 1) sample ∧
     dayOf today - 1 - dayOf ⟨1, 1, 1799⟩ ≤ 106751 ∧ C05.Full today := by decide
 example : (edges sample).Nodup ∧ ¬ (edges witness24).Nodup := by decide
 example : warnings sample today =
-    [.incorrectEventOrder 3 .buri ⟨1, 3, 1931⟩ .deat ⟨2, 3, 1931⟩, .individualTooOld 3,
+    [.incorrectEventOrder 3 .buri (.ok ⟨1, 3, 1931⟩) .deat (.ok ⟨2, 3, 1931⟩), .individualTooOld 3,
      .multipleSexes 3 2, .unparsableDate false 3 7,
      .childBornBeforeParent 1 1 7, .childBornBeforeParent 1 2 7,
      .siblingsBornTooClose 1 3 4, .siblingsBornTooClose 1 3 5, .siblingsBornTooClose 1 4 6,
